@@ -390,7 +390,14 @@ class C05(Prop):
                 "DSV.binaryOpDs_ds_wf", "DSV.stackDs_wf", "DSV.concatenateDs_wf",
                 "AxisCache.coherent_init", "AxisCache.coherent_step", "AxisCache.coherent_run",
                 "AxisCache.slice_keeps_monotonic", "AxisCache.query_history_independent",
-                "AxisCache.union_history_independent", "AxisCache.sort_sets_true_counterexample"]
+                "AxisCache.union_history_independent", "AxisCache.sort_sets_true_counterexample",
+                "AxisCache.forgetSt_coherent", "AxisCache.step_forget", "AxisCache.run_bisim", "AxisCache.forgetSt_is_fresh_heap",
+                "AxisCache.run_history_independent", "AxisCache.step_forget_incoherent_counterexample",
+                "GroupedCache.grouped_coherent_init", "GroupedCache.grouped_coherent_step", "GroupedCache.grouped_coherent_run",
+                "GroupedCache.flatten_isolated_from_source", "GroupedCache.grouped_size_survives_member_mutation", "GroupedCache.grouped_stale_after_member_relabel_counterexample",
+                "GroupedCache.flatten_stale_after_member_relabel_counterexample",
+                "GroupedCache.grouped_name_stale_after_member_rename_counterexample",
+                "GroupedCache.grouped_take_before_read_counterexample", "GroupedCache.grouped_setitem_incoherent_counterexample"]
     rule = ("(a) constructor groups: one set of axes (rank 0-4, sizes 0-4, int/float/str labels) given through every "
             "documented form (label lists + dims, lists as python lists, (name, labels) pairs, Axis objects, dict + dims, "
             "OrderedDict, dict without dims, labels= keyword, names only, nothing) with values as ndarray / nested list / "
@@ -417,6 +424,14 @@ class C05(Prop):
             "EVERY step the result, and labels / dtype kind / `_monotonic` of every live object are compared with the Lean state "
             "machine AxisCache.step; class P when a cached flag differs from the strict monotonicity of the labels or when "
             "is_monotonic / union / intersection answer differently from freshly constructed axes; "
+            "(b4) gcache: histories of 5-17 steps on real MultiAxis objects, built directly (members by reference) or through "
+            "DimArray(axes=<these Axis objects>).flatten(dims) (members are copies; 2-3 members, int / str labels, sizes 1-3): read labels / "
+            "size / name, slices (g[:] is g), take, copy, unflatten, relabelling / renaming of plain axes that are NOT members of a live "
+            "grouped axis (incl. the source axes of a flatten); after EVERY step result, labels / name of every plain axis and members "
+            "(by object identity), `_name`, `_values`, `_size` of every grouped axis are compared with the Lean machine GroupedCache.step; "
+            "class P when a cached field differs from a fresh MultiAxis of the same members or b.unflatten() differs from the members; "
+            "parked behind SKIP_GROUPED_MEMBER_MUTATION / SKIP_GROUPED_PRIVATE_VALUES (open defects, Lean counterexamples): relabel / rename of "
+            "a member, take / item assignment before the first read, item assignment; "
             "(c) DimArray.__init__ wrapped during the run: every array the library constructs is checked for well-formedness. "
             "Non-trivial = rank >= 1; distinct = canonical JSON")
     assumptions = ["dimension names are comma-free non-empty strings (the quantifier of the property)",
@@ -1478,7 +1493,7 @@ class C05(Prop):
         try:
             if c["op"] == "hist":
                 return self.run_hist(c)
-            if c["op"] == "cache":
+            if c["op"] in c05_cache.OPS:
                 return c05_cache.run_cache(c)
             if c["op"] == "grouped":
                 return self.run_grouped(c)
@@ -1520,7 +1535,7 @@ class C05(Prop):
             monitor_off()
 
     def request(self, c):
-        if c["op"] == "cache":
+        if c["op"] in c05_cache.OPS:
             return c05_cache.request_cache(c)
         if c["op"] in ("hist", "ctor2", "helper2", "axset", "grouped"):
             return dict(DUMMY)
@@ -1615,7 +1630,7 @@ class C05(Prop):
     def judge(self, c, io, ans):
         bad = []
         detail = {}
-        if c["op"] == "cache":
+        if c["op"] in c05_cache.OPS:
             return c05_cache.judge_cache(c, io, ans)
         if c["op"] == "ctor2":
             return self.judge_ctor2(c, io)
@@ -1696,14 +1711,14 @@ class C05(Prop):
         return {"monitor_arrays_constructed": MON["constructed"], "monitor_illformed": MON["illformed"]}
 
     def nontrivial(self, c):
-        if c["op"] == "cache":
+        if c["op"] in c05_cache.OPS:
             return len(c["ops"]) >= 3
         if c["op"] == "hist":
             return len(c["steps"]) >= 1
         return len(c["axes"]) >= 1
 
     def features(self, c, io):
-        if c["op"] == "cache":
+        if c["op"] in c05_cache.OPS:
             return c05_cache.features_cache(c, io)
         if c["op"] == "hist":
             f = {"op": "hist", "rank": len(c["array"]["axes"]), "nsteps": len(c["steps"]), "second_array": bool(c.get("more")),
@@ -1750,7 +1765,7 @@ class C05(Prop):
         return f
 
     def size(self, c):
-        if c["op"] in ("hist", "cache"):
+        if c["op"] in ("hist", "cache", "gcache"):
             return len(json.dumps(c))
         return sum(len(a["labels"]) for a in c["axes"]) + 10 * len(c["axes"])
 
